@@ -55,3 +55,13 @@ Definition sx_delta_all (w : world) (b : bool) (prog : list op) : sx :=
       end
   | None => SA "raises"
   end.
+
+(* a JSON-persisted delta: the model's reloaded payload, the relation's right-hand side, and the
+   delta the application model reads from it *)
+Definition sx_json_sets (b : bool) (p : pv) : sx :=
+  SL [sx_opv (json_roundtrip p); sx_pv (setlist p);
+      match json_roundtrip p with
+      | Some p' => match delta_of_pv b p' with Some d => sx_delta d | None => SA "not-an-ordered-mode-delta" end
+      | None => SA "raises"
+      end;
+      match delta_of_pv b p with Some d => sx_delta d | None => SA "not-an-ordered-mode-delta" end].
